@@ -6,6 +6,7 @@ from .. import core, harness, models
 from ..core import Explorer, SInt, SStr
 from ..harness import Item, fam, plain, ev
 
+USES_REGEX = True
 INFO = dict(
     functions=["netconan.utils.juniper_secrets.juniper_nonrandom_encrypt", "juniper_decrypt", "_gap_encode", "_gap", "_gap_decode", "_nibble", "_fixedc",
                "module tables EXTRA / ALPHA_NUM / NUM_ALPHA / ENCODING and the VALID pattern (interpreted symbolically)"],
@@ -137,7 +138,7 @@ def roundtrip(item, res):
                 res["finals_unsat"] += 1
             else:
                 found.append(m)
-                return ("cex", crypt, back)
+                return ("cex", crypt, back, m)
         return ("ok", crypt, back)
     paths = ex.explore(h)
     harness.add_stats(res, ex)
@@ -146,8 +147,9 @@ def roundtrip(item, res):
     for p in paths:
         if p.model is None:
             continue
-        pv = "".join(chr(ev(p.model, c)) for c in ps)
-        sv = chr(ev(p.model, sc)) if saltmode == "sym" else ("" if saltmode == "empty" else None)
+        mdl = p.result[3] if (p.exc is None and p.result[0] == "cex") else p.model
+        pv = "".join(chr(ev(mdl, c)) for c in ps)
+        sv = chr(ev(mdl, sc)) if saltmode == "sym" else ("" if saltmode == "empty" else None)
         if p.exc is not None or p.result[0] == "cex":
             kind = type(p.exc).__name__ if p.exc is not None else "mismatch"
             tag = "roundtrip:%s:%s" % (kind, "empty-plaintext" if n == 0 and kind == "ValueError" else ("salt-not-in-alphabet" if kind == "KeyError" else ("empty-salt" if kind == "IndexError" else "other")))
